@@ -170,6 +170,19 @@ func exercise(c *Case, b []byte, typ reflect.Type, heavy bool) string {
 			d.InputOffset()
 			io.Copy(io.Discard, d.Buffered())
 		}},
+		{"Decoder(stuttering reader, one large piece)", func() {
+			// a read that returns no data and no error, then everything at once (more than the initial window)
+			data := append(bytes.Repeat([]byte(" "), 600), b...)
+			d := gojson.NewDecoder(jsongen.NewChunkReader(data, []int{0, len(data)}))
+			d.Decode(reflect.New(typ).Interface())
+			d.More()
+			d2 := gojson.NewDecoder(jsongen.NewChunkReader(data, []int{3, 0, 0, len(data)}))
+			for i := 0; i < 8; i++ {
+				if _, err := d2.Token(); err != nil {
+					break
+				}
+			}
+		}},
 		{"Valid", func() { gojson.Valid(b) }},
 		{"Compact", func() { var d bytes.Buffer; gojson.Compact(&d, b) }},
 		{"Indent", func() { var d bytes.Buffer; gojson.Indent(&d, b, ">", "\t") }},
